@@ -8,6 +8,7 @@ package main
 
 import (
 	"bufio"
+	"errors"
 	"fmt"
 	"io"
 	"os"
@@ -16,10 +17,35 @@ import (
 	"runtime"
 	"strings"
 	"sync"
+	"syscall"
 	"time"
 
 	"github.com/Ptt-official-app/go-pttbbs/cmsys"
 )
+
+// c14AwayName: a record file whose write the OS refuses (ENOSPC), as on a full or over-quota volume. An appender marked
+// "away" (process code 200+p) appends to it: open, table entry, flock and seek succeed, the write(2) fails. Its call is not
+// stopped at the schedule points: it is one event, "failed".
+// The file is the "full" device (character device 1:7, what /dev/full is) under a PRIVATE name next to the record file of the
+// case: a node of its own if mknod is permitted, else a symbolic link to /dev/full. The code under test is never given the path
+// /dev/full itself: a tree that unlinks or renames what it appends to would otherwise destroy the machine's device node.
+const c14AwayName = ".DIR.full"
+
+func c14MakeFull(dir string) string {
+	p := filepath.Join(dir, c14AwayName)
+	if err := syscall.Mknod(p, syscall.S_IFCHR|0o666, 1<<8|7); err == nil {
+		if f, err := os.OpenFile(p, os.O_WRONLY, 0); err == nil {
+			_, werr := f.Write([]byte{1})
+			f.Close()
+			if errors.Is(werr, syscall.ENOSPC) {
+				return p
+			}
+		}
+		os.Remove(p) // e.g. a nodev mount
+	}
+	must(os.Symlink("/dev/full", p))
+	return p
+}
 
 // a payload encoding/binary refuses (int is not fixed-size): BinaryWrite fails inside the critical section
 type c14Bad struct {
@@ -55,8 +81,12 @@ func c14Worker() {
 		return gates[t]
 	}
 	gids := map[string]int{}
+	ungated := map[int]bool{} // away threads: never stopped
 	cmsys.VerifPointHook = func(name string, data interface{}) {
 		if name == "flock.tabled" {
+			if fn, ok := data.(string); ok && filepath.Base(fn) == c14AwayName {
+				return
+			}
 			// the calling appender holds its process' table entry and is about to call flock(2): report, do not stop
 			gmu.Lock()
 			t, ok := gids[goid()]
@@ -82,6 +112,12 @@ func c14Worker() {
 		if g == nil {
 			return
 		}
+		gmu.Lock()
+		free := ungated[t]
+		gmu.Unlock()
+		if free {
+			return
+		}
 		code := map[string]int{"append.locked": 1, "append.seeked": 2, "append.written": 3}[name]
 		if code == 0 {
 			return
@@ -99,15 +135,19 @@ func c14Worker() {
 			continue
 		}
 		switch f[0] {
-		case "init": // init <file> <sz> <tid>...
+		case "maxprocs": // maxprocs <k>: the server runs with GOMAXPROCS=k
+			runtime.GOMAXPROCS(int(ai(f[1])))
+		case "init": // init <file> <sz> <tid>[b|f]...
 			file := f[1]
 			sz := int(ai(f[2]))
 			for _, ts := range f[3:] {
 				isBad := strings.HasSuffix(ts, "b")
-				t := int(ai(strings.TrimSuffix(ts, "b")))
+				isAway := strings.HasSuffix(ts, "f")
+				t := int(ai(strings.TrimSuffix(strings.TrimSuffix(ts, "b"), "f")))
 				g := make(chan struct{})
 				gmu.Lock()
 				gates[t] = g
+				ungated[t] = isAway
 				gmu.Unlock()
 				go func(t int, g chan struct{}) {
 					gmu.Lock()
@@ -122,11 +162,17 @@ func c14Worker() {
 					if isBad {
 						data = &c14Bad{T: uint8(t + 1)}
 					}
-					idx, err := cmsys.AppendRecord(file, data, uintptr(sz))
+					target := file
+					if isAway {
+						target = filepath.Join(filepath.Dir(file), c14AwayName)
+					}
+					idx, err := cmsys.AppendRecord(target, data, uintptr(sz))
 					if err != nil {
 						code := 2
 						if err == cmsys.ErrPttLock {
 							code = 1
+						} else if errors.Is(err, syscall.ENOSPC) {
+							code = 3 // the write(2) itself was refused
 						}
 						emit(fmt.Sprintf("done %d 0 %d", t, code))
 					} else {
@@ -158,12 +204,18 @@ type c14Proc struct {
 func c14Run(args [][]string) []string {
 	sz := int(ai(args[1][0]))
 	ninit := int(ai(args[1][1]))
+	maxprocs := 0 // 0: the Go default (number of CPUs)
+	if len(args[1]) > 2 {
+		maxprocs = int(ai(args[1][2]))
+	}
 	procs := make([]int, len(args[2]))
 	bad := make([]bool, len(args[2]))
+	away := make([]bool, len(args[2]))
 	nproc := 0
 	for i, p := range args[2] {
 		procs[i] = int(ai(p)) % 100
-		bad[i] = ai(p) >= 100
+		bad[i] = ai(p) >= 100 && ai(p) < 200
+		away[i] = ai(p) >= 200
 		if procs[i]+1 > nproc {
 			nproc = procs[i] + 1
 		}
@@ -182,6 +234,12 @@ func c14Run(args [][]string) []string {
 		initb[i] = 200
 	}
 	must(os.WriteFile(file, initb, 0o644))
+	for _, a := range away {
+		if a {
+			c14MakeFull(dir)
+			break
+		}
+	}
 
 	events := make(chan c14Event, 64)
 	ws := make([]*c14Proc, nproc)
@@ -217,10 +275,15 @@ func c14Run(args [][]string) []string {
 			if procs[t] == p {
 				if bad[t] {
 					tids = append(tids, fmt.Sprint(t)+"b")
+				} else if away[t] {
+					tids = append(tids, fmt.Sprint(t)+"f")
 				} else {
 					tids = append(tids, fmt.Sprint(t))
 				}
 			}
+		}
+		if maxprocs > 0 {
+			fmt.Fprintf(in, "maxprocs %d\n", maxprocs)
 		}
 		fmt.Fprintf(in, "init %s %d %s\n", file, sz, strings.Join(tids, " "))
 		select {
